@@ -825,9 +825,17 @@ func (s *symExec) stmt(st ast.Stmt) {
 		s.forStmt(x)
 	case *ast.RangeStmt:
 		nconds := len(s.conds)
-		k := s.freshAtom("k")
+		// `for i := range xs` is the counted loop `for i := 0; i < len(xs); i++`: the key is a trip counter of the
+		// same kind (K~n) and the body runs under i < len(xs)
+		k := s.freshAtom("K")
 		if obj := s.assignObj(x.Key); x.Key != nil && obj != nil {
 			s.env[obj] = k
+		}
+		if t := s.p.TypesInfo.TypeOf(x.X); t != nil {
+			switch t.Underlying().(type) {
+			case *types.Slice, *types.Array:
+				s.conds = append(s.conds, symCond{op: token.LSS, l: k, r: polyAtom("len(" + s.expr(x.X).String() + ")")})
+			}
 		}
 		if x.Value != nil {
 			if obj := s.assignObj(x.Value); obj != nil {
